@@ -414,6 +414,59 @@ theorem allometry_neutral_at_ref_weight (F : Funs) (hpow : ∀ t, F.pow 1 t = 1)
   have : z / z = 1 := by grind
   simp [Doc.allometry, this, hpow]
 
+/-- `add_allometry` acts on the **last** assignment of the parameter.  For every statement list — any number of
+    earlier assignments of `p` in `pre`, anything not defining `p` in `post` — the new statement is placed right after
+    the last assignment, the final value of `p` in the extended model is the documented `P·(X/Z)^T` applied to the
+    **final** value `p` had before the extension (X, Z, T read at that point), and `post` sees it. -/
+theorem allometry_acts_on_last_assignment (F : Funs) (ρ : Env Rat) (pre post : List Stmt) (p θ : Sym) (e x z : Expr)
+    (hpost : ∀ s ∈ post, p ∉ s.defs) :
+    addAllometry (pre ++ .assign p e :: post) p x z θ
+        = some (pre ++ .assign p e :: .assign p (allometryExpr p x z θ) :: post) ∧
+    run (interp F) (pre ++ .assign p e :: post) ρ p = run (interp F) (pre ++ [.assign p e]) ρ p ∧
+    run (interp F) (pre ++ .assign p e :: .assign p (allometryExpr p x z θ) :: post) ρ p
+        = Doc.allometry F (run (interp F) (pre ++ [.assign p e]) ρ p)
+            (ev F (run (interp F) (pre ++ [.assign p e]) ρ) x) (ev F (run (interp F) (pre ++ [.assign p e]) ρ) z)
+            (run (interp F) (pre ++ [.assign p e]) ρ θ) := by
+  refine ⟨?_, ?_, ?_⟩
+  · have hsplit : pre ++ Stmt.assign p e :: post = (pre ++ [Stmt.assign p e]) ++ post := by simp
+    have hlen : (pre ++ [Stmt.assign p e]).length = pre.length + 1 := by simp
+    have h1 : (pre ++ Stmt.assign p e :: post).take (pre.length + 1) = pre ++ [Stmt.assign p e] := by
+      rw [hsplit]; exact List.take_left' hlen
+    have h2 : (pre ++ Stmt.assign p e :: post).drop (pre.length + 1) = post := by
+      rw [hsplit]; exact List.drop_left' hlen
+    simp [addAllometry, findLastAssign_split p pre post e hpost, h1, h2]
+  · have : pre ++ Stmt.assign p e :: post = (pre ++ [Stmt.assign p e]) ++ post := by simp
+    rw [this, run_append, run_not_def (interp F) post _ p hpost]
+  · have : pre ++ Stmt.assign p e :: Stmt.assign p (allometryExpr p x z θ) :: post
+        = (pre ++ [Stmt.assign p e]) ++ (Stmt.assign p (allometryExpr p x z θ) :: post) := by simp
+    rw [this, run_append, run_cons, run_not_def (interp F) post _ p hpost]
+    simp only [Stmt.exec, Env.set, if_true]
+    exact allometry_matches_doc F _ p θ x z
+
+/-- Acting on the FIRST assignment instead is wrong as soon as a later re-assignment is not multiplicative:
+    for `CL = T; CL = CL + A` the documented result is `(T + A)·(W/Z)^θ`, the first-assignment variant gives
+    `T·(W/Z)^θ + A` (here 4 versus 3), for every `F` with `pow a 1 = a`. -/
+theorem allometry_first_assignment_witness (F : Funs) (hpow : ∀ a, F.pow a 1 = a) :
+    let ss : List Stmt := [.assign "CL" (.sym "T"), .assign "CL" (.f2 "add" (.sym "CL") (.sym "A"))]
+    let ρ : Env Rat := fun s => if s = "W" then 2 else 1
+    (addAllometry ss "CL" (.sym "W") (.sym "Z") "TH").map (fun r => run (interp F) r ρ "CL") = some 4 ∧
+    (addAllometryFirst ss "CL" (.sym "W") (.sym "Z") "TH").map (fun r => run (interp F) r ρ "CL") = some 3 := by
+  intro ss ρ
+  have h1 : addAllometry ss "CL" (.sym "W") (.sym "Z") "TH"
+      = some [.assign "CL" (.sym "T"), .assign "CL" (.f2 "add" (.sym "CL") (.sym "A")),
+              .assign "CL" (allometryExpr "CL" (.sym "W") (.sym "Z") "TH")] := by decide
+  have h2 : addAllometryFirst ss "CL" (.sym "W") (.sym "Z") "TH"
+      = some [.assign "CL" (.sym "T"), .assign "CL" (allometryExpr "CL" (.sym "W") (.sym "Z") "TH"),
+              .assign "CL" (.f2 "add" (.sym "CL") (.sym "A"))] := by decide
+  rw [h1, h2]
+  constructor
+  · simp [run, List.foldl, Stmt.exec, Env.set, Expr.eval, interp, interpFn, allometryExpr, inst, Gen.allometry,
+      Expr.subst, List.lookup, ρ, hpow]
+    grind
+  · simp [run, List.foldl, Stmt.exec, Env.set, Expr.eval, interp, interpFn, allometryExpr, inst, Gen.allometry,
+      Expr.subst, List.lookup, ρ, hpow]
+    grind
+
 /-! ## Transit compartments -/
 
 /-- a well-formed chain: every flow is `length / MDT` -/
